@@ -537,10 +537,14 @@ namespace vg
         int cls = 0;  // 0 default 1 random subset 2 single 3 all 4 interior
         bool is_explicit = false;
         size_t masked_defaults_removed = 0;
+        bool has_masked = false;  // the set holds masked nodes (they count for nothing)
     };
 
-    // Effective base-level set (never empty, never masked).  `every_component`: add one base
-    // level to each unmasked component that has none.
+    // Base-level set passed to the graph.  It always holds at least one UNMASKED node; it may also
+    // hold masked nodes (a mask covering part of a fixed-value border is ordinary use): masked nodes
+    // are "not included in the flow graph" (documentation), so a masked base level counts for
+    // nothing in the models.  `every_component`: add one unmasked base level to each unmasked
+    // component that has none.
     inline std::vector<size_t> gen_base_levels(Src& s, const ModelGrid& m, const std::vector<uint8_t>& mask, bool every_component, BaseInfo* info = nullptr)
     {
         size_t n = m.n;
@@ -549,18 +553,16 @@ namespace vg
         size_t cls = s.weighted({ 120, 60, 30, 10, 36 });
         BaseInfo bi;
         bi.cls = static_cast<int>(cls);
+        bool allow_masked = !mask.empty() && s.chance(128);
         if (cls == 0)
         {
+            // constructor default: every fixed-value node, masked or not
             for (size_t i = 0; i < n; ++i)
                 if (m.status[i] == va::ST_FIXED_VALUE)
                 {
                     if (masked(i))
-                    {
-                        ++bi.masked_defaults_removed;
-                        bi.is_explicit = true;
-                    }
-                    else
-                        bl.push_back(i);
+                        ++bi.masked_defaults_removed;  // (kept in the set; counted)
+                    bl.push_back(i);
                 }
         }
         else
@@ -570,7 +572,7 @@ namespace vg
             {
                 unsigned dens = 10 + s.u8() % 80;
                 for (size_t i = 0; i < n; ++i)
-                    if (!masked(i) && s.chance(dens))
+                    if ((allow_masked || !masked(i)) && s.chance(dens))
                         bl.push_back(i);
             }
             else if (cls == 2)
@@ -582,7 +584,7 @@ namespace vg
             else if (cls == 3)
             {
                 for (size_t i = 0; i < n; ++i)
-                    if (!masked(i))
+                    if (allow_masked || !masked(i))
                         bl.push_back(i);
             }
             else
@@ -597,7 +599,15 @@ namespace vg
                 }
             }
         }
-        if (bl.empty())
+        auto unmasked_count = [&]()
+        {
+            size_t k = 0;
+            for (auto b : bl)
+                if (!masked(b))
+                    ++k;
+            return k;
+        };
+        if (unmasked_count() == 0)
         {
             bi.is_explicit = true;
             for (size_t i = 0; i < n; ++i)
@@ -619,6 +629,10 @@ namespace vg
                 }
         }
         std::sort(bl.begin(), bl.end());
+        bl.erase(std::unique(bl.begin(), bl.end()), bl.end());
+        for (auto b : bl)
+            if (masked(b))
+                bi.has_masked = true;
         if (info)
             *info = bi;
         return bl;
